@@ -96,6 +96,12 @@ def gen_tokens_sweep(tabs, quick):
         okb = [b for b in range(1, 256) if tab["base"][b][0] in ("kw", "self") and b != 34]
         # one program with a line per harmless byte (keeps the run count low), LISTO 0 so loop tokens do not indent
         yield ("tok-all", d, 0, prog(d, [(10 * i + 10, [65, b, 66]) for i, b in enumerate(okb)]))
+        # ... the same bytes as the last byte of their line, and after each of C6/C7/C8 where this dialect name treats that byte as
+        # an ordinary keyword (a name wired to another dialect's table shows in exactly these places)
+        yield ("tok-all-eol", d, 0, prog(d, [(10 * i + 10, [65, b]) for i, b in enumerate(okb)]))
+        for intro in (0xC6, 0xC7, 0xC8):
+            if tab["base"][intro][0] in ("kw", "self"):
+                yield ("plain-%02x-pairs" % intro, d, 0, prog(d, [(10 * i + 10, [intro, b, 58]) for i, b in enumerate(okb)]))
         for b in range(1, 256):
             if b not in okb:
                 yield ("tok-%02x" % b, d, 7, prog(d, [(10, [65, b, 66]), (20, [67])]))
